@@ -1,6 +1,7 @@
 """C03 — write then parse is the identity (structural preconditions only)."""
 from lib import *  # noqa
 import order
+import codecrules
 from order import nocast, key
 
 TECHNIQUE = ("parser/writer sibling agreement per RR type bound through the two dispatch switches, offset-kind dataflow with an empty-buffer proof at "
@@ -686,3 +687,5 @@ def run(prog, R, tier):
     r_atomic(prog, R)
     r_err(prog, R)
     r_onewriter(prog, R)
+    codecrules.r_limit(prog, R, "R-C03-LIMIT")
+    codecrules.r_pure(prog, R, "R-C03-PURE")
